@@ -66,12 +66,25 @@ def _make_views():
             return 'tok-view-3-get'
     Derived.__name__ = 'V3'
     views.append(Derived)
+
+    # two sibling views that inherit ALL their public methods from a common base (the function objects are shared, only the class differs)
+    class Base(pjrpc.server.ViewMixin):
+        K = -1
+
+        def info(self):
+            return f'tok-view-{self.K}-info'
+
+        def get(self):
+            return f'tok-view-{self.K}-get'
+    for k in (4, 5):
+        views.append(type(f'V{k}', (Base,), {'K': k}))
     return views
 
 
 FUNCS = _make_functions()
 VIEWS = _make_views()
-VIEW_PUBLIC = {0: ['get', 'put', 'stat'], 1: ['get', 'put', 'stat'], 2: ['get', 'put', 'stat', 'only2'], 3: ['get', 'put', 'stat', 'extra']}
+VIEW_PUBLIC = {0: ['get', 'put', 'stat'], 1: ['get', 'put', 'stat'], 2: ['get', 'put', 'stat', 'only2'], 3: ['get', 'put', 'stat', 'extra'],
+               4: ['info', 'get'], 5: ['info', 'get']}
 # tokens of view 3: 'get' and 'extra' are its own, 'put' and 'stat' are inherited from view 0
 VIEW3_TOKENS = {'get': 'tok-view-3-get', 'extra': 'tok-view-3-extra', 'put': 'tok-view-0-put', 'stat': 'tok-view-0-stat'}
 
@@ -89,24 +102,25 @@ class C15(Check):
         "cases: registration histories of up to 6 operations over a pool of 1..4 registries with prefix in {none, 'a', 'a.b'}: add(f), "
         "add(f, name) (names incl. dotted ones and names colliding with other registrations), add_methods(f, g), view(V), view(V, prefix), "
         "merge(r_i into r_j) (i != j, chains up to 3 levels; merged content is a snapshot), then attachment to a sync or async dispatcher via "
-        "add_methods(registry) / add(f, name) / view(V); functions return unique tokens, two functions share one __name__, views have public "
-        "methods, a staticmethod, _private and __dunder__ methods and non-callable attributes; one view inherits its public methods from another. Oracle: a dict model name -> token built from "
+        "add_methods(registry) / add(f, name) / view(V) / one add_methods(...) call mixing registries, functions and Method objects in any argument order; functions return unique tokens, two functions share one __name__, views have public "
+        "methods, a staticmethod, _private and __dunder__ methods and non-callable attributes; one view inherits its public methods from another, two sibling views inherit all of theirs from a common base. Oracle: a dict model name -> token built from "
         "the property's naming rule; after attach every model name dispatches to its token, every probed other name (one edit away, prefix "
         "dropped / added, private and dunder member names with and without prefixes, bare un-prefixed names) yields -32601, and the "
         "dispatcher's registry key set equals the model's. non-trivial = the history merges a prefixed registry or registers a view, and "
         "re-registers at least one name; distinct = distinct spec."
     )
     assumptions = [
-        "registries are not merged into themselves; Method instances are not passed to add_methods (that path bypasses prefixes by design)",
+        "registries are not merged into themselves; Method instances are passed only to the dispatcher's add_methods (a registry's add_methods(Method) bypasses prefixes by design)",
     ]
     trusted_base = ['dict model in checks/c15.py']
     required_classes = ['op/add', 'op/add-name', 'op/add_methods', 'op/view', 'op/view-prefix', 'op/merge', 'merge/prefixed-into-prefixed',
-                        'merge/depth>=2', 'replaced', 'attach/registry', 'attach/add', 'attach/view', 'dispatcher/sync', 'dispatcher/async', 'view/inherited']
+                        'merge/depth>=2', 'replaced', 'attach/registry', 'attach/add', 'attach/view', 'attach/mixed', 'dispatcher/sync', 'dispatcher/async', 'view/inherited',
+                        'view/siblings-sharing-inherited-methods']
 
     def strategy(self, tier: str):
         s_fn = st.integers(0, len(FUNCS) - 1)
         s_reg = st.integers(0, 3)
-        s_view = st.integers(0, 3)
+        s_view = st.sampled_from([0, 1, 2, 3, 4, 5, 4, 5])
         s_op = st.one_of(
             st.builds(lambda r, f: ['add', r, f], s_reg, s_fn),
             st.builds(lambda r, f, n: ['add-name', r, f, n], s_reg, s_fn, st.sampled_from(EXPLICIT)),
@@ -120,6 +134,11 @@ class C15(Check):
             st.builds(lambda r: ['registry', r], s_reg), st.builds(lambda r: ['registry', r], s_reg),
             st.builds(lambda f, n: ['add', f, n], s_fn, st.sampled_from([None, 'x', 'top.level'])),
             st.builds(lambda v: ['view', v], s_view),
+            # ONE add_methods(...) call mixing registries, plain functions and Method objects, in this argument order
+            st.builds(lambda items: ['mixed', [list(i) for i in items]], st.lists(st.one_of(
+                st.builds(lambda r: ['registry', r], s_reg), st.builds(lambda f: ['func', f], s_fn),
+                st.builds(lambda f, n: ['method', f, n], s_fn, st.sampled_from(EXPLICIT + FUNC_NAMES[:3])),
+            ), min_size=2, max_size=4)),
         )
         return st.builds(
             lambda d, regs, ops, att: {'dispatcher': d, 'registries': regs, 'ops': [list(o) for o in ops], 'attach': [list(a) for a in att]},
@@ -131,6 +150,8 @@ class C15(Check):
         return [
             {'dispatcher': 'sync', 'registries': ['a', 'a.b', None], 'ops': [['add', 0, 0], ['view-prefix', 0, 0, 'user'], ['merge', 0, 1], ['merge', 1, 2], ['add', 2, 3], ['add', 2, 4]],
              'attach': [['registry', 2]]},
+            {'dispatcher': 'sync', 'registries': ['a', None], 'ops': [['view-prefix', 0, 4, 'user'], ['view-prefix', 0, 5, 'user'], ['add', 1, 0], ['view', 1, 5], ['view', 1, 4]],
+             'attach': [['mixed', [['func', 1], ['method', 2, 'f0'], ['registry', 1], ['registry', 0]]]]},
             {'dispatcher': 'async', 'registries': [None, 'a'], 'ops': [['view', 1, 2], ['add-name', 1, 1, 'get'], ['merge', 1, 0]], 'attach': [['registry', 0], ['view', 1]]},
         ]
 
@@ -183,6 +204,8 @@ class C15(Check):
                 uses_view = True
                 if op[2] == 3:
                     classes.add('view/inherited')
+                if op[2] in (4, 5):
+                    classes.add('view/siblings-sharing-inherited-methods')
             elif k == 'merge':
                 src, dst = op[1] % nreg, op[2] % nreg
                 if src == dst:
@@ -212,6 +235,26 @@ class C15(Check):
                 d.add(FUNCS[att[1]], att[2])
                 put(model, att[2] or FUNC_NAMES[att[1]], f'tok-fn-{att[1]}')
                 classes.add('attach/add')
+            elif att[0] == 'mixed':
+                args = []
+                before = dict(model)
+                for item in att[1]:
+                    if item[0] == 'registry':
+                        args.append(regs[item[1] % nreg])
+                        for name, tok in models[item[1] % nreg].items():
+                            put(model, name, tok)
+                    elif item[0] == 'func':
+                        args.append(FUNCS[item[1]])
+                        put(model, FUNC_NAMES[item[1]], f'tok-fn-{item[1]}')
+                    else:
+                        args.append(pjrpc.server.Method(FUNCS[item[1]], name=item[2]))
+                        put(model, item[2], f'tok-fn-{item[1]}')
+                d.add_methods(*args)
+                classes.add('attach/mixed')
+                kinds_seen = [i[0] for i in att[1]]
+                if 'registry' in kinds_seen[1:] and any(model.get(n) != before.get(n) and n in models[i[1] % nreg]
+                                                        for i in att[1] if i[0] == 'registry' for n in model):
+                    classes.add('attach/mixed/registry-after-function')
             else:
                 d.view(VIEWS[att[1]])
                 for m, tok in view_tokens(att[1]):
